@@ -116,7 +116,7 @@ Definition match_embedded (s : bytes) : option (bytes * bytes) :=
   | c0 :: c1 :: c2 :: t =>
       if Ascii.eqb c0 "\" && Ascii.eqb c1 "x" && Ascii.eqb c2 "{" then
         match take_hex t with
-        | (_ :: _ as h, c3 :: r) => if Ascii.eqb c3 "}" then Some (h, r) else None
+        | ((_ :: _) as h, c3 :: r) => if Ascii.eqb c3 "}" then Some (h, r) else None
         | _ => None
         end
       else None
